@@ -56,14 +56,15 @@ pub fn lossy_rt(fs: &[&str]) -> String {
     let paras = parse_ldoc(fs[0]);
     let ops: Vec<String> = fs[1].split(' ').filter(|x| !x.is_empty() && *x != "-").map(|x| x.to_string()).collect();
     guard(move || {
-        // lossy::Deb822 has no public constructor from paragraphs: print paragraph by paragraph as its Display does
-        let mut text = String::new();
-        for (i, p) in paras.iter().enumerate() {
-            if i > 0 {
-                text.push('\n');
-            }
-            text.push_str(&p.to_string());
+        // lossy::Deb822 has no public constructor from paragraphs: read a skeleton document with
+        // as many paragraphs and overwrite them through iter_mut(), then use the REAL Display
+        let skeleton: String = (0..paras.len()).map(|_| "K: v\n\n").collect();
+        let mut doc = lossy::Deb822::from_str(&skeleton).unwrap();
+        assert_eq!(doc.len(), paras.len());
+        for (slot, p) in doc.iter_mut().zip(paras.iter()) {
+            *slot = p.clone();
         }
+        let text = doc.to_string();
         let reread = match lossy::Deb822::from_str(&text) {
             Ok(d) => format!("OK:{}", doc_s(&d)),
             Err(_) => "ERR".to_string(),
